@@ -337,6 +337,32 @@ theorem roundtrip_family_parts (f : Family) (hwf : f.WellFormed) (henc : f.Encod
     parsePartial (f.kind i) (f.encodePart i) = .ok (some (f.part i)) :=
   f.parse_encodePart (by decide) (by decide) (by decide) hwf henc i hi
 
+/-- The executable checker (`representableB`, the one the `e` requests of the correspondence run use)
+is sound: whatever it accepts round-trips. -/
+theorem roundtrip_checked (k : InfoKind) (i : ServerInfo) (offset : Nat) (h : representableB k i offset = true) :
+    parsePartial k (encInfo k i offset) = .ok (some { info := i, received := maskFor k offset i.clients.length }) ∧
+    parseFull k (encInfo k i offset) = .ok (some { i with clients := sortClients i.clients }) := by
+  obtain ⟨hk, hh, hc, hs⟩ := representableB_sound h
+  exact ⟨roundtrip_normal k hk i offset hh hc hs, roundtrip_full k hk i offset hh hc hs⟩
+
+theorem roundtrip_checked_more (token : Int) (no : Nat) (cs : List ClientInfo)
+    (h : representableMoreB token no cs = true) :
+    parsePartial .info6ExMore (encMore token no cs)
+      = .ok (some { info := (moreHdr token).withClients cs, received := 1 <<< no }) := by
+  obtain ⟨ht, hlo, hhi, hc⟩ := representableMoreB_sound h
+  exact roundtrip_more token ht no hlo hhi cs hc
+
+/-- **General encodability**: every well-formed family whose header and clients pass the executable
+test is `Encodable`; hence for all of them the parts `Family.part i` of the merge theorems are what
+the parser returns for the family's datagrams. -/
+theorem roundtrip_family_checked (f : Family) (hwf : f.WellFormed) (h : f.representableB = true)
+    (i : Nat) (hi : i < f.size) :
+    parsePartial (f.kind i) (f.encodePart i) = .ok (some (f.part i)) :=
+  roundtrip_family_parts f hwf (f.encodable_of_representableB hwf h) i hi
+
+example : witnessEx.representableB = true ∧ witnessLegacy.representableB = true ∧ witnessEx3.representableB = true ∧
+    representableB .info7 witnessV7 0 = true := by decide
+
 -- non-vacuity: both concrete families are representable, and their encodings are byte for byte the
 -- payloads of `corpus/browse/finding-d10-merge-repeat.txt`
 example : witnessEx.Encodable ∧ witnessLegacy.Encodable := ⟨witnessEx_encodable, witnessLegacy_encodable⟩
